@@ -166,11 +166,15 @@ pub fn append_rule(rule: Arc<Rule>) -> bool {
         .entry(rule.resource.clone())
         .or_default()
         .insert(Arc::clone(&rule));
+    // a copy is enough for the rebuild: the breaker-rules lock is released before breakers are
+    // built or dropped, as in `load_rules` (a listener's `on_circuit_breaker_drop` may read the rules)
+    let rules_of_res = breaker_rules.get(&rule.resource).unwrap().clone();
+    drop(breaker_rules);
     // the helper moves every reused breaker out of the old list into the new one,
     // so the new list is the complete set of breakers of the resource
     let new_cbs_of_res = build_resource_circuit_breaker(
         &rule.resource,
-        breaker_rules.get(&rule.resource).unwrap(),
+        &rules_of_res,
         breaker_map
             .get_mut(&rule.resource)
             .unwrap_or(&mut placeholder),
